@@ -27,7 +27,6 @@ BlockOf(key) == IF key = 0 THEN [i \in 1..HashLen |-> 0] ELSE pool[key]
 TransformConforms(e) ==
   /\ e.out.panic = "" /\ ~e.out.fault
   /\ e.out.equal_generic                              \* assembly (or portable) build == transformGeneric on all 64 lanes
-  /\ e.out.from_unchanged                             \* the source buffers are only read
   /\ \A k \in DOMAIN e.out.incells :
        e.out.outcells[k] = TransformC(e.out.incells[k], N81, R81)
 
